@@ -528,6 +528,7 @@ func workerMain(file string, offset int64, count int, deadline time.Duration, st
 			continue
 		}
 		rs, ct := routeForFamily(fam)
+		w.emit("W", map[string]any{"family": fam})
 		in := &Input{ID: -1, Route: rs.Template, Method: rs.Method, Path: rs.Path, Family: fam, Body: seedBody(fam, "")}
 		if rs.Query != "" {
 			in.Path += "?" + rs.Query
@@ -538,7 +539,7 @@ func workerMain(file string, offset int64, count int, deadline time.Duration, st
 		r := w.run(in, true)
 		if r.Status != familyOK[fam] || r.FollowUp != familyOK[fam] || !r.FollowSeen || len(r.Issues)+len(r.FollowIss) > 0 || len(r.Leaked) > 0 || r.Panic != "" {
 			b, _ := json.Marshal(r)
-			w.emit("X", map[string]any{"msg": "warm-up: the valid seed of family " + fam + " is not cleanly acknowledged", "result": json.RawMessage(b)})
+			w.emit("F", map[string]any{"family": fam, "msg": "the valid seed of family " + fam + " is not cleanly acknowledged", "result": json.RawMessage(b)})
 			os.Exit(4)
 		}
 	}
